@@ -32,7 +32,7 @@ use std::time::{Duration, Instant};
 use tokio::sync::oneshot;
 
 pub const MODEL: &str =
-    "c16 { P { f:String, g:String, h:String, q:c16.Q nullable, qs:[c16.Q] nullable } Q { name:String } }";
+    "c16 { P { f:String, g:String, h:String, q:c16.Q nullable, qs:[c16.Q] nullable, es:[c16.Q] nullable } Q { name:String } }";
 const READER_GATE: &str = "reader.after_execute";
 const WRITER_GATE: &str = "writer.before_batch";
 
@@ -49,8 +49,10 @@ pub enum Kind {
     ReplRef,
     ReplRef2,
     Move,
+    /// clears a reference list that is already empty: assigns nothing, so it must not write the row
+    ClearEmpty,
 }
-pub const KINDS: [Kind; 7] = [
+pub const KINDS: [Kind; 8] = [
     Kind::SetF,
     Kind::SetG,
     Kind::SetF2,
@@ -58,6 +60,7 @@ pub const KINDS: [Kind; 7] = [
     Kind::ReplRef,
     Kind::ReplRef2,
     Kind::Move,
+    Kind::ClearEmpty,
 ];
 impl Kind {
     pub fn name(&self) -> &'static str {
@@ -69,6 +72,7 @@ impl Kind {
             Kind::ReplRef => "replRef",
             Kind::ReplRef2 => "replRef2",
             Kind::Move => "moveRoom",
+            Kind::ClearEmpty => "clearEmptyRef",
         }
     }
     pub fn idx(&self) -> usize {
@@ -83,6 +87,7 @@ impl Kind {
             Kind::ReplRef => "mutate { c16.P { id:$id q:{id:$q1} } }",
             Kind::ReplRef2 => "mutate { c16.P { id:$id q:{id:$q2} } }",
             Kind::Move => "mutate { c16.P { id:$id room_id:$r2 h:\"hone\" } }",
+            Kind::ClearEmpty => "mutate { c16.P { id:$id es:null } }",
         }
     }
     /// parts of the row this kind assigns (what the serial result owes to it)
@@ -91,6 +96,7 @@ impl Kind {
             Kind::SetF | Kind::SetF2 => &["f"],
             Kind::SetG => &["g"],
             Kind::AddRef => &["qs"],
+            Kind::ClearEmpty => &[],
             Kind::ReplRef | Kind::ReplRef2 => &["q"],
             Kind::Move => &["room", "h"],
         }
